@@ -149,6 +149,27 @@ def worker(shard):
                 check_concat(mido, (first, m2, m3), acc)
         acc.sample({'concat': [first.type, msgs[3].type, msgs[12].type]},
                    cap=1)
+    elif kind == 'long':
+        n = shard[1]
+        payload = [(i * 7 + 3) & 0x7F for i in range(n)]
+        enc = [0xF0] + payload + [0xF7]
+        m = mido.Message('sysex', data=payload)
+        for P in ((), (0x90, 1), (0xF0, 1, 2), (5, 6)):
+            check_prefix(mido, P, [m], [enc], acc)
+        check_concat(mido, (msgs[2], m, msgs[9]), acc)
+        # a real-time byte in the middle and right before the end
+        for pos in (1, n // 2 + 1, n + 1):
+            data = enc[:pos] + [0xF8] + enc[pos:]
+            acc.evals += 1
+            acc.nontrivial += 1
+            got = mido.parse_all(data)
+            if [x.type for x in got] != ['clock', 'sysex'] or \
+                    list(got[-1].data) != payload:
+                acc.violation('rt-in-sysex/long-payload',
+                              f'sysex with {n} data bytes and a clock at '
+                              f'{pos}: got {[x.type for x in got]}',
+                              {'kind': 'long', 'n': n})
+        acc.sample({'long_sysex_payload': n}, cap=1)
     elif kind == 'rt':
         n, kmax, extra = shard[1], shard[2], shard[3]
         alpha = (0, 0x7F, extra)
@@ -177,6 +198,11 @@ def run():
     extra = 1 + (common.seed() * 29) % 126
     for n in range(0, 5 if not thorough else 7):
         shards.append(('rt', n, 3 if n <= 3 or thorough else 2, extra))
+    kmax = 20 if thorough else 17
+    longs = sorted({(1 << k) + d for k in range(7, kmax + 1) for d in (-2, -1, 0, 1)}
+                   | {1000, 9999, 10000, 10001, 65000, 100000})
+    shards += [('long', n) for n in longs]
+    rep.coverage['long_sysex_payload_lengths'] = longs
     run_shards(worker, shards, rep)
     rep.coverage['exhaustive'] = True
     rep.coverage['rule'] = (
@@ -212,6 +238,9 @@ def check_case(case):
         seq = [mido.Message.from_bytes(b) for b in case['expected']]
         check_concat(mido, seq, acc)
     else:
+        if case['kind'] == 'long':
+            return [(k, v[0][1]) for k, v in
+                    worker(('long', case['n'])).viol.items()]
         data = case['bytes']
         payload = case['payload']
         exp = [ref.REALTIME_STATUS[b] for b in data if b in ref.REALTIME_STATUS]
